@@ -101,7 +101,12 @@ func vpCrossRead(tag string, b []byte) {
 	if cur == nil || ref == nil {
 		return
 	}
-	vpSameObs(tag, vpObserve(cur, []string{"zz"}, []string{"q"}), vpObserve(ref, []string{"zz"}, []string{"q"}))
+	// The pinned reference reader has the defect repaired in the current tree by
+	// "fix: dictionary entry count of a term that follows a 1-hit encoded term"
+	// (known_findings.json, C08): its DictionaryIterator reports count 1 for such
+	// an entry.  That count is therefore not part of the cross-read comparison;
+	// the same number is still compared through PostingsList.Count.
+	vpSameObsOpt(tag, vpObserve(cur, []string{"zz"}, []string{"q"}), vpObserve(ref, []string{"zz"}, []string{"q"}), true)
 }
 
 // builder output: current writer -> reference reader and reference writer -> current reader
@@ -128,7 +133,7 @@ func vpH_C10_crossmerge() {
 	g := vpNewGen(0)
 	tplA, tplB, maxB, ncfg := []int{2, 5, 7}, []int{2, 5}, 1, 2
 	if vpThorough() {
-		tplA, tplB, maxB, ncfg = vpMergeTemplates, vpMergeTemplates, 2, len(vpMergeCfgs)
+		tplA, tplB, maxB, ncfg = vpMergeTemplates, []int{2, 3, 5, 10}, 2, 3
 	}
 	a := g.batch("A", 1, 2, tplA)
 	b := g.batch("B", 0, maxB, tplB)
